@@ -72,7 +72,15 @@ func runC04(res *Result, d *Driver, tier string, seed uint64) {
 		f := strings.Fields(ans)
 		res.Case(fmt.Sprintf("opt%d", n), n != 0, "skeleton")
 		if len(f) != 4 || f[0] != f[1] || f[2] != f[3] {
-			res.Mismatch(Mismatch{Kind: "differential", What: "GoLite(Gen.ForkChild.forkAndExecInChild) labelled trace vs Model.ForkSkeleton.skeleton (+ clone flags)", Input: fmt.Sprintf("c04.labels %d", n), Impl: f[0] + " flags=" + f[2], Model: f[1] + " flags=" + f[3]})
+			m := Mismatch{Kind: "differential", What: "GoLite(Gen.ForkChild.forkAndExecInChild) labelled trace vs Model.ForkSkeleton.skeleton (+ clone flags)", Input: fmt.Sprintf("c04.labels %d (%s)", n, c04Describe(n)), Impl: f[0] + " flags=" + f[2], Model: f[1] + " flags=" + f[3]}
+			// classify with the property's own oracle evaluated on the regenerated code's trace
+			if len(f) == 4 {
+				if bad := c04Oracle(n, strings.Split(f[0], ",")); len(bad) > 0 {
+					m.Oracle = "violates"
+					m.Note = strings.Join(bad, "; ")
+				}
+			}
+			res.Mismatch(m)
 		}
 	}
 	if tier == "thorough" {
@@ -221,4 +229,67 @@ func runC04(res *Result, d *Driver, tier string, seed uint64) {
 			res.Sample("launch " + desc + " => " + strings.ReplaceAll(strings.TrimSpace(out), "\n", " | "))
 		}
 	}
+}
+
+func c04Bit(n uint64, i uint) bool { return n>>i&1 == 1 }
+
+func c04Describe(n uint64) string {
+	names := []string{"cred", "noSetGroups", "gidMappings", "enableSetgroups", "dropCaps", "nnp", "seccomp", "ptrace", "stopBefore", "syncFunc", "ucas", "newUser",
+		"newPid", "newNs", "newUts", "newIpc", "newNet", "newCgroup", "pivot", "cgroupFd", "ctty", "workdir", "hostname", "domainname", "groups", "mounts", "roBind", "rlimits", "execFile"}
+	var on []string
+	for i, nm := range names {
+		if c04Bit(n, uint(i)) {
+			on = append(on, nm)
+		}
+	}
+	return strings.Join(on, "+")
+}
+
+// c04Oracle evaluates the property statement on the launch trace of the (regenerated) child for option vector n.
+func c04Oracle(n uint64, labels []string) []string {
+	cnt := map[string]int{}
+	pos := map[string]int{}
+	for i, l := range labels {
+		cnt[l]++
+		pos[l] = i
+	}
+	cred, dropCaps, nnp, secc := c04Bit(n, 0), c04Bit(n, 4), c04Bit(n, 5), c04Bit(n, 6)
+	var bad []string
+	want := func(cond bool, label, what string) {
+		if cond && cnt[label] == 0 {
+			bad = append(bad, what+" requested but step "+label+" is missing")
+		}
+		if !cond && cnt[label] > 0 {
+			bad = append(bad, "step "+label+" executed although "+what+" was not requested")
+		}
+	}
+	want(secc, "seccomp", "a seccomp filter")
+	if cnt["seccomp"] > 1 {
+		bad = append(bad, "filter loaded more than once")
+	}
+	if (nnp || secc) && cnt["prctl_nnp"] == 0 {
+		bad = append(bad, "no_new_privs not set")
+	}
+	if secc && cnt["prctl_nnp"] > 0 && cnt["seccomp"] > 0 && pos["prctl_nnp"] > pos["seccomp"] {
+		bad = append(bad, "filter loaded before no_new_privs")
+	}
+	if cred || dropCaps {
+		if cnt["capset"] == 0 || cnt["prctl_securebits_noroot"] == 0 {
+			bad = append(bad, "capabilities not dropped / NOROOT not set although credential or drop-caps requested")
+		}
+	}
+	want(cred, "setuid", "a credential")
+	want(cred, "setgid", "a credential")
+	if cnt["setsid"] != 1 {
+		bad = append(bad, "setsid not executed exactly once")
+	}
+	want(c04Bit(n, 21), "chdir_workdir", "a working directory")
+	want(c04Bit(n, 22), "sethostname", "a host name")
+	want(c04Bit(n, 23), "setdomainname", "a domain name")
+	want(c04Bit(n, 18), "pivot_root", "a pivot root")
+	last := labels[len(labels)-1]
+	if last != "execve" && last != "execveat" {
+		bad = append(bad, "the launch does not end in exec: "+last)
+	}
+	return bad
 }
